@@ -253,7 +253,7 @@ request_st = st.fixed_dictionaries({"dev": st.sampled_from([-1, -2, 0, 1, 2, 0])
 case_st = st.fixed_dictionaries(
     {
         "devices": drivers.deployment(max_devices=3).filter(lambda specs: all(drivers.spec_size_ok(s) for s in specs)),
-        "ops": st.lists(drivers.driver_op() | drivers.driver_macro() | st.fixed_dictionaries({"op": st.just("eenable"), "d": st.integers(0, 11), "v": st.integers(0, 11), "e": st.integers(0, 11), "on": st.booleans()}), max_size=15).map(drivers.flatten_ops),
+        "ops": st.lists(drivers.driver_op() | drivers.driver_macro() | st.fixed_dictionaries({"op": st.just("reset"), "d": st.integers(0, 11), "v": st.integers(0, 11), "e": st.integers(0, 11), "val": drivers.value_st}) | st.fixed_dictionaries({"op": st.just("eenable"), "d": st.integers(0, 11), "v": st.integers(0, 11), "e": st.integers(0, 11), "on": st.booleans()}), max_size=15).map(drivers.flatten_ops),
         "req": request_st,
     }
 )
